@@ -900,12 +900,18 @@ func parseSPSSccExtension(r *bits.EBSPReader, ChromaFormatIDC,
 			ext.PalettePredictorInitializer = make([][]uint, numComps)
 			// Fill luma
 			for i := uint(0); i <= ext.NumPalettePredictorInitializersMinus1; i++ {
+				if r.AccError() != nil {
+					break // no more data: stop instead of filling up to the coded count
+				}
 				ext.PalettePredictorInitializer[0] =
 					append(ext.PalettePredictorInitializer[0], r.Read(int(BitDepthLumaMinus8+8)))
 			}
 			// Fill chroma if any
 			for comp := 1; comp < numComps; comp++ {
 				for i := uint(0); i <= ext.NumPalettePredictorInitializersMinus1; i++ {
+					if r.AccError() != nil {
+						break // no more data: stop instead of filling up to the coded count
+					}
 					ext.PalettePredictorInitializer[comp] =
 						append(ext.PalettePredictorInitializer[comp], r.Read(int(BitDepthChromaMinus8+8)))
 				}
